@@ -101,7 +101,11 @@ func runC02(c c02Case) (*Violation, string) {
 			len(lost), lost[0].Tok, rig.W.Started(lost[0].Tok), rig.W.Finished(lost[0].Tok), hooks.History(30)), ""
 	}
 	if len(undecided) > 0 {
-		return nil, fmt.Sprintf("%d calls outstanding after 10s without a verdict", len(undecided))
+		// no fault was injected: a connection on which calls (and the probes) stay outstanding for 10 s is itself
+		// a violation of "every call returns"; bound-based, so the caller confirms it with a second run
+		u := undecided[0]
+		return violf("call-hangs", "%d of %d calls still outstanding 10s after all handlers were released on a healthy connection (first: %s, handler started %d finished %d); hook history: %v",
+			len(undecided), len(calls), u.Tok, rig.W.Started(u.Tok), rig.W.Finished(u.Tok), hooks.History(20)), ""
 	}
 	for i, p := range calls {
 		if p.Err != nil {
@@ -215,6 +219,12 @@ func TestC02(t *testing.T) {
 			v, inc := runC02(c)
 			if inc != "" {
 				rec.Class("undecided", 1)
+			}
+			if v != nil && v.Key == "call-hangs" {
+				if v2, _ := runC02(c); v2 == nil {
+					rec.Class("unconfirmed", 1)
+					return nil
+				}
 			}
 			return v
 		})
